@@ -7,6 +7,10 @@ mkdir -p coq/Generated evidence replays
 # tables generated from /repo (regenerated again by every check)
 if ls gen/*.py >/dev/null 2>&1; then
   /venv/bin/python gen/all.py || echo "setup: generators failed (checks will report)"
+  # stand-alone table generators that the checks call themselves (C03, C05); here only so that setup builds their files too
+  for g in gen/c03_table.py gen/c05_table.py; do
+    [ -f "$g" ] && { /venv/bin/python "$g" >/dev/null 2>&1 || echo "setup: $g failed (its check will report)"; }
+  done
 fi
 /venv/bin/python - <<'PY'
 import sys
